@@ -322,3 +322,20 @@ mod tests {
         span_line_eq(" a\n❤ b", 5, 6, "❤ b");
     }
 }
+
+/// Verification hooks (compiled only under `--cfg kani` / `--cfg grmtools_verif`).
+#[cfg(any(kani, grmtools_verif))]
+impl NewlineCache {
+    /// Build a cache directly from its representation.
+    pub fn verif_from_raw(newlines: Vec<usize>, trailing_bytes: usize) -> Self {
+        Self {
+            newlines,
+            trailing_bytes,
+        }
+    }
+
+    /// Read-only view of the representation.
+    pub fn verif_raw(&self) -> (&[usize], usize) {
+        (&self.newlines, self.trailing_bytes)
+    }
+}
